@@ -139,9 +139,22 @@ package avfs
 //@   requires vfs != nil
 //@   ensures[C01,C06,C12] r1 == nil ==> called(vfs.OpenFile) && !failed(vfs.OpenFile) && r0 == result(vfs.OpenFile, 0) && recv(vfs.OpenFile) == vfs && arg(vfs.OpenFile, 1) == os.O_RDWR|os.O_CREATE|os.O_EXCL
 
-//@ func Glob
+// Glob: only the loop-free part is under contract - a pattern without meta characters is looked up with
+// Lstat (no final link is followed, as filepath.Glob does) and Glob itself never calls Stat; the
+// recursive part (glob, the loop over the matches of the directory pattern) is not verified.
+//@ func glob
 //@   event
 //@   trusted
+
+//@ func Glob
+//@   event
+//@   requires vfs != nil
+//@   ensures[C14] !called(vfs.Stat)
+//@   ensures[C14] !called(glob) && !called(Glob) && r1 == nil && r0 != nil ==> called(vfs.Lstat)
+//@   ensures[C14] called(vfs.Lstat) ==> ncalls(vfs.Lstat) == 1 && arg(vfs.Lstat, 0) == pattern && recv(vfs.Lstat) == vfs
+//@   ensures[C14] called(vfs.Lstat) && failed(vfs.Lstat) ==> r0 == nil && r1 == nil
+//@   ensures[C14] called(vfs.Lstat) && !failed(vfs.Lstat) ==> r1 == nil && len(r0) == 1 && r0[0] == pattern
+//@   loop 0 invariant true
 
 // ---- vfs.go: open-flag decoding (C01, C02) ---------------------------------------------------
 
